@@ -8,6 +8,8 @@
 (*   swap    the other direction flag                                      *)
 (*   relabel the base direction with the two masks exchanged               *)
 (*   kernel  find_matches_parallel (numba candidate generator)             *)
+(*   recheck the arrays returned by the base call, looked at again after   *)
+(*           all later calls (which re-use the caller's own arrays)        *)
 (*                                                                         *)
 (* The driver logs, computed by brute force over all pairs with the        *)
 (* TANGENT criterion, the admissible pairs of both directions as           *)
